@@ -56,7 +56,7 @@ def _any_ctc(draw, names, feats):
     return ["NOT", cmp_]
 
 
-ANY = S.Profile(S.ident_names(), single=("mandatory", "optional", "card1"),
+ANY = S.Profile(S.ident_or_dict_names(), single=("mandatory", "optional", "card1"),
                 group=("alternative", "or", "mutex", "card"), layout="free",
                 ftypes=("BOOLEAN", "BOOLEAN", "INTEGER", "REAL", "STRING"), fcards=True,
                 ctc_max=5, ctc_expr=_any_ctc)
